@@ -1,86 +1,738 @@
-//! Lifecycle harness (C17 / C10). See design_notes/C17.md.
+//! Lifecycle harness (C17 / C10): executes TLC-enumerated scenarios on a pc-pair and records the
+//! hook + watch + application events of each run for validation by `Trace_Lifecycle`.
+//!
+//!   life run <scenarios.ndjson> <trace_out.ndjson> [i/n]
+//!
+//! C17 scenario: {"id","kind":"c17","mode","victim","phase","ev1","ev2","at2"}
+//!   phase : created offerMade gathering checking iceConnected dtlsHandshaking dtlsConnected
+//!           sctpConnecting channelsOpen mediaFlowing renegotiating
+//!   ev1/2 : Close Drop PeerCloseNotify PeerSctpAbort PeerSctpShutdown IceStop SocketLoss BlockedSender | none
+//!   at2   : none | now | <probe point of the victim> (ev2 fires inside that probe)
+//! C10 scenario: {"id","kind":"c10","cfg":{...}}
+//!
+//! One fresh tokio runtime per scenario; events of a scenario are preceded by a `reset` line and
+//! followed by an `end` line carrying the end-state observations.
 use rtcverif::pcpair::*;
-use rtcverif::{NdjsonOut, read_ndjson};
+use rtcverif::{NdjsonOut, Rng, read_ndjson};
+use rustrtc::PeerConnectionState as PS;
 use serde_json::{Value, json};
-use std::time::Duration;
+use std::sync::Arc;
+use std::sync::atomic::{AtomicBool, AtomicU64, Ordering};
+use std::time::{Duration, Instant};
 
 fn main() {
     let args: Vec<String> = std::env::args().collect();
     match args.get(1).map(|s| s.as_str()) {
-        Some("smoke") => smoke(args.get(2).map(|s| s.as_str()).unwrap_or("{}")),
+        Some("run") if args.len() >= 4 => {
+            let (i, n) = args
+                .get(4)
+                .and_then(|s| s.split_once('/'))
+                .map(|(a, b)| (a.parse().unwrap(), b.parse().unwrap()))
+                .unwrap_or((0usize, 1usize));
+            run_file(&args[2], &args[3], i, n);
+        }
         _ => {
-            eprintln!("usage: life smoke '<cfg json>'");
+            eprintln!("usage: life run <scenarios.ndjson> <trace_out.ndjson> [i/n]");
             std::process::exit(2);
         }
     }
 }
 
-fn smoke(cfgs: &str) {
-    let cfg = PairCfg::from_json(&serde_json::from_str::<Value>(cfgs).expect("cfg json"));
+fn run_file(scen: &str, out: &str, shard: usize, nshards: usize) {
+    rtcverif::quiet_panics();
+    let scenarios = read_ndjson(scen);
+    let mut w = NdjsonOut::create(out);
+    for (k, sc) in scenarios.iter().enumerate() {
+        if k % nshards != shard {
+            continue;
+        }
+        let attempts = sc.get("attempts").and_then(|v| v.as_u64()).unwrap_or(1).max(1);
+        for attempt in 0..attempts {
+            let (events, end) = run_one(sc, attempt);
+            let hit = end["hit"].as_bool().unwrap_or(false);
+            if hit || attempt + 1 == attempts {
+                w.push(&json!({"comp":"life","ev":"reset","scenario": sc, "attempt": attempt}));
+                for e in &events {
+                    w.push(e);
+                }
+                w.push(&end);
+                break;
+            }
+        }
+    }
+    w.finish();
+}
+
+fn s<'a>(v: &'a Value, k: &str, d: &'a str) -> &'a str {
+    v.get(k).and_then(|x| x.as_str()).unwrap_or(d)
+}
+
+// --------------------------------------------------------------------------- firing plan
+
+struct Plan {
+    victim: String,
+    phase_point: Option<String>, // probe point that defines the phase (None: harness-level phase)
+    ev1: String,
+    ev2: String,
+    at2: String,
+    fired1: AtomicBool,
+    fired2: AtomicBool,
+    applicable1: AtomicBool,
+    applicable2: AtomicBool,
+    a: parking_lot::Mutex<Option<Arc<Side>>>,
+    b: parking_lot::Mutex<Option<Arc<Side>>>,
+    handle: tokio::runtime::Handle,
+    rec: Arc<Recorder>,
+    nprobe: AtomicU64,
+}
+
+/// Accumulates the process-wide event log so that the harness can look at it while running.
+struct Recorder {
+    all: parking_lot::Mutex<Vec<Value>>,
+}
+impl Recorder {
+    fn drain(&self) {
+        let mut g = self.all.lock();
+        g.extend(rustrtc::verif::take_events());
+    }
+    fn find_last(&self, f: impl Fn(&Value) -> bool) -> Option<Value> {
+        self.drain();
+        self.all.lock().iter().rev().find(|e| f(e)).cloned()
+    }
+    fn take(&self) -> Vec<Value> {
+        self.drain();
+        std::mem::take(&mut *self.all.lock())
+    }
+}
+
+impl Plan {
+    fn side(&self, l: &str) -> Option<Arc<Side>> {
+        if l == "A" { self.a.lock().clone() } else { self.b.lock().clone() }
+    }
+    fn victim_side(&self) -> Option<Arc<Side>> {
+        self.side(&self.victim)
+    }
+    fn peer_side(&self) -> Option<Arc<Side>> {
+        self.side(if self.victim == "A" { "B" } else { "A" })
+    }
+
+    /// Called synchronously from inside rustrtc at every probe point.
+    fn on_probe(&self, inst: &str, point: &str) {
+        self.nprobe.fetch_add(1, Ordering::Relaxed);
+        if inst != self.victim {
+            return;
+        }
+        if let Some(pp) = &self.phase_point {
+            if point == pp && !self.fired1.swap(true, Ordering::SeqCst) {
+                log("life", inst, "phase_hit", json!({"point": point}));
+                let ok = self.fire(&self.ev1, 1);
+                self.applicable1.store(ok, Ordering::SeqCst);
+                if self.at2 == "now" && self.ev2 != "none" && !self.fired2.swap(true, Ordering::SeqCst) {
+                    let ok = self.fire(&self.ev2, 2);
+                    self.applicable2.store(ok, Ordering::SeqCst);
+                }
+                return;
+            }
+        }
+        if self.fired1.load(Ordering::SeqCst)
+            && self.ev2 != "none"
+            && point == self.at2
+            && !self.fired2.swap(true, Ordering::SeqCst)
+        {
+            log("life", inst, "race_hit", json!({"point": point}));
+            let ok = self.fire(&self.ev2, 2);
+            self.applicable2.store(ok, Ordering::SeqCst);
+        }
+    }
+
+    /// Harness-level firing of ev1 (phases that are not defined by a probe point).
+    fn fire1_now(&self) {
+        if !self.fired1.swap(true, Ordering::SeqCst) {
+            log("life", &self.victim, "phase_hit", json!({"point": "harness"}));
+            let ok = self.fire(&self.ev1, 1);
+            self.applicable1.store(ok, Ordering::SeqCst);
+            if self.at2 == "now" && self.ev2 != "none" && !self.fired2.swap(true, Ordering::SeqCst) {
+                let ok = self.fire(&self.ev2, 2);
+                self.applicable2.store(ok, Ordering::SeqCst);
+            }
+        }
+    }
+
+    /// Fire one terminating event. Synchronous (may run inside a probe); returns false when the
+    /// event is not applicable in the current situation (e.g. the peer has no DTLS keys yet).
+    fn fire(&self, ev: &str, ord: u32) -> bool {
+        let (Some(v), Some(p)) = (self.victim_side(), self.peer_side()) else {
+            return false;
+        };
+        log("life", &self.victim, "fire", json!({"event": ev, "ord": ord}));
+        match ev {
+            "Close" => v.close(),
+            "Drop" => v.drop_pc(),
+            "IceStop" => {
+                // no clone of the handle is kept: the ICE transport handle is its own object
+                let ice = v.pc.lock().as_ref().map(|pc| pc.ice_transport());
+                match ice {
+                    Some(i) => {
+                        i.stop();
+                        true
+                    }
+                    None => false,
+                }
+            }
+            "PeerCloseNotify" => {
+                let d = p.pc.lock().as_ref().and_then(|pc| pc.verif_dtls_transport());
+                match d {
+                    Some(d) if matches!(d.get_state(), rustrtc::transports::dtls::DtlsState::Connected(..)) => {
+                        d.close();
+                        // a peer that said goodbye is gone shortly afterwards
+                        let p2 = p.clone();
+                        self.handle.spawn(async move {
+                            tokio::time::sleep(Duration::from_millis(60)).await;
+                            p2.close();
+                        });
+                        true
+                    }
+                    _ => false,
+                }
+            }
+            "PeerSctpAbort" | "PeerSctpShutdown" => {
+                let d = p.pc.lock().as_ref().and_then(|pc| pc.verif_dtls_transport());
+                let peer_label = p.label.clone();
+                // the verification tag the victim expects = the tag on the peer's last packet
+                let vtag = self
+                    .rec
+                    .find_last(|e| {
+                        e["comp"] == "sctp" && e["ev"] == "tx" && e["inst"] == peer_label.as_str() && e["vtag"].as_u64().unwrap_or(0) != 0
+                    })
+                    .and_then(|e| e["vtag"].as_u64());
+                match (d, vtag) {
+                    (Some(d), Some(vtag)) if matches!(d.get_state(), rustrtc::transports::dtls::DtlsState::Connected(..)) => {
+                        let pkt = if ev == "PeerSctpAbort" {
+                            sctp_packet(5000, 5000, vtag as u32, 6, 0, &[])
+                        } else {
+                            // SHUTDOWN carries the cumulative TSN ack; then the peer completes the
+                            // shutdown handshake as the initiator would (SHUTDOWN-ACK back to us is
+                            // answered by the victim; a real initiator then sends SHUTDOWN-COMPLETE)
+                            sctp_packet(5000, 5000, vtag as u32, 7, 0, &[0, 0, 0, 0])
+                        };
+                        let p2 = p.clone();
+                        let is_shutdown = ev == "PeerSctpShutdown";
+                        self.handle.spawn(async move {
+                            let _ = d.send(bytes::Bytes::from(pkt)).await;
+                            if is_shutdown {
+                                tokio::time::sleep(Duration::from_millis(30)).await;
+                                let _ = d
+                                    .send(bytes::Bytes::from(sctp_packet(5000, 5000, vtag as u32, 14, 0, &[])))
+                                    .await;
+                            }
+                            // the peer's association is gone; so is the peer shortly afterwards
+                            tokio::time::sleep(Duration::from_millis(60)).await;
+                            p2.close();
+                        });
+                        true
+                    }
+                    _ => false,
+                }
+            }
+            "SocketLoss" => {
+                // the peer vanishes without a word (close() stops ICE before any notification leaves)
+                p.close()
+            }
+            _ => false,
+        }
+    }
+}
+
+// --------------------------------------------------------------------------- SCTP packet crafting
+
+fn crc32c(data: &[u8]) -> u32 {
+    let mut crc: u32 = !0;
+    for b in data {
+        crc ^= *b as u32;
+        for _ in 0..8 {
+            crc = if crc & 1 != 0 { (crc >> 1) ^ 0x82F63B78 } else { crc >> 1 };
+        }
+    }
+    !crc
+}
+
+fn sctp_packet(sport: u16, dport: u16, vtag: u32, ctype: u8, flags: u8, value: &[u8]) -> Vec<u8> {
+    let mut p = Vec::new();
+    p.extend_from_slice(&sport.to_be_bytes());
+    p.extend_from_slice(&dport.to_be_bytes());
+    p.extend_from_slice(&vtag.to_be_bytes());
+    p.extend_from_slice(&[0, 0, 0, 0]);
+    p.push(ctype);
+    p.push(flags);
+    p.extend_from_slice(&((4 + value.len()) as u16).to_be_bytes());
+    p.extend_from_slice(value);
+    while p.len() % 4 != 0 {
+        p.push(0);
+    }
+    let c = crc32c(&p).to_le_bytes();
+    p[8..12].copy_from_slice(&c);
+    p
+}
+
+// --------------------------------------------------------------------------- API call probes
+
+/// Run `fut` with a generous bound; log begin / end|hang in the shared event order.
+async fn api_call<T>(
+    inst: &str,
+    call: &'static str,
+    bound: Duration,
+    fut: impl std::future::Future<Output = T>,
+    show: impl Fn(&T) -> String,
+) -> Value {
+    log("app", inst, "api_begin", json!({"call": call}));
+    let t0 = Instant::now();
+    match tokio::time::timeout(bound, fut).await {
+        Ok(r) => {
+            let ms = t0.elapsed().as_millis() as u64;
+            let res = show(&r);
+            log("app", inst, "api_end", json!({"call": call, "ms": ms, "res": res}));
+            json!({"call": call, "hang": false, "ms": ms, "res": res})
+        }
+        Err(_) => {
+            log("app", inst, "api_hang", json!({"call": call, "bound_ms": bound.as_millis() as u64}));
+            json!({"call": call, "hang": true})
+        }
+    }
+}
+
+fn okerr<T, E: std::fmt::Display>(r: &Result<T, E>) -> String {
+    match r {
+        Ok(_) => "ok".into(),
+        Err(e) => format!("err:{}", e.to_string().chars().take(60).collect::<String>()),
+    }
+}
+
+// --------------------------------------------------------------------------- one scenario
+
+fn phase_point(phase: &str) -> Option<&'static str> {
+    match phase {
+        "checking" => Some("ice_seen:Checking"),
+        "iceConnected" => Some("ice_seen:Connected"),
+        "dtlsHandshaking" => Some("dtls.handshaking"),
+        "dtlsConnected" => Some("dtls.connected"),
+        "sctpConnecting" => Some("loops.spawned"),
+        _ => None,
+    }
+}
+
+fn is_terminal(side: &Side) -> bool {
+    match side.peer_state() {
+        Some(PS::Closed) | Some(PS::Failed) => true,
+        Some(PS::Disconnected) => side.reason() != "None",
+        _ => false,
+    }
+}
+
+fn run_one(sc: &Value, attempt: u64) -> (Vec<Value>, Value) {
+    let kind = s(sc, "kind", "c17").to_string();
+    let _ = rustrtc::verif::take_events();
     rustrtc::verif::set_enabled(true);
     let rt = tokio::runtime::Builder::new_multi_thread()
-        .worker_threads(2)
+        .worker_threads(3)
         .enable_all()
         .build()
         .unwrap();
-    rt.block_on(async move {
-        let base_tasks = alive_tasks();
-        let base_socks = socket_count();
-        let pair = Pair::new(&cfg);
-        pair.create_dc().unwrap();
-        let r = pair.signal().await;
-        eprintln!("signal: {:?}", r);
-        let ok = wait_until(Duration::from_secs(10), || {
-            pair.a.peer_state() == Some(rustrtc::PeerConnectionState::Connected)
-                && pair.b.peer_state() == Some(rustrtc::PeerConnectionState::Connected)
-        })
-        .await;
-        eprintln!("connected: {ok}");
-        if cfg.dc {
-            let ok = wait_until(Duration::from_secs(10), || {
-                pair.a.dc_open.load(std::sync::atomic::Ordering::SeqCst)
-                    && pair.b.dc_open.load(std::sync::atomic::Ordering::SeqCst)
-            })
-            .await;
-            eprintln!("dc open: {ok}");
-            for s in [&pair.a, &pair.b] {
-                let id = s.dc.lock().as_ref().map(|d| d.id).unwrap_or(0);
-                let r = s.pc().send_data(id, format!("hello from {}", s.label).as_bytes()).await;
-                eprintln!("send_data {}: {:?}", s.label, r);
+    let sc2 = sc.clone();
+    let rec = Arc::new(Recorder {
+        all: parking_lot::Mutex::new(vec![]),
+    });
+    let rec2 = rec.clone();
+    let watchdog = Duration::from_secs(60);
+    let end = rt.block_on(async move {
+        let fut = async {
+            if kind == "c10" {
+                run_c10(&sc2, rec2.clone()).await
+            } else {
+                run_c17(&sc2, attempt, rec2.clone()).await
             }
-        }
-        for i in 0..20u32 {
-            for s in [&pair.a, &pair.b] {
-                if cfg.audio {
-                    s.send_media(rustrtc::MediaKind::Audio, format!("au-{}-{}", s.label, i).as_bytes(), i * 960);
-                }
-                if cfg.video {
-                    s.send_media(rustrtc::MediaKind::Video, format!("vi-{}-{}", s.label, i).as_bytes(), i * 3000);
-                }
-            }
-            tokio::time::sleep(Duration::from_millis(10)).await;
-        }
-        quiesce(Duration::from_millis(100), Duration::from_secs(3)).await;
-        eprintln!("tasks {} socks {} (base {} {})", alive_tasks(), socket_count(), base_tasks, base_socks);
-        pair.a.pc().close();
-        quiesce(Duration::from_millis(200), Duration::from_secs(3)).await;
-        eprintln!(
-            "after close A: A={:?}/{:?} B={:?}/{:?}",
-            pair.a.peer_state(),
-            reason_name(&pair.a.pc().disconnect_reason()),
-            pair.b.peer_state(),
-            reason_name(&pair.b.pc().disconnect_reason())
-        );
-        pair.b.pc().close();
-        quiesce(Duration::from_millis(200), Duration::from_secs(3)).await;
-        pair.a.release_aux();
-        pair.b.release_aux();
-        drop(pair);
-        let ok = wait_until(Duration::from_secs(3), || alive_tasks() <= base_tasks && socket_count() <= base_socks).await;
-        eprintln!("released: {ok} tasks {} socks {}", alive_tasks(), socket_count());
-        for e in rustrtc::verif::take_events() {
-            println!("{}", e);
+        };
+        match tokio::time::timeout(watchdog, fut).await {
+            Ok(v) => v,
+            Err(_) => json!({"comp":"life","ev":"end","hit":false,"harness_timeout":true}),
         }
     });
-    let _ = (NdjsonOut::create, read_ndjson, json!(0));
+    rustrtc::verif::set_probe(None);
+    rt.shutdown_timeout(Duration::from_millis(500));
+    rustrtc::verif::set_enabled(false);
+    let events = rec.take();
+    (events, end)
+}
+
+async fn run_c17(sc: &Value, attempt: u64, rec: Arc<Recorder>) -> Value {
+    let mode = s(sc, "mode", "WebRtc");
+    let victim = s(sc, "victim", "A").to_string();
+    let phase = s(sc, "phase", "channelsOpen").to_string();
+    let ev1 = s(sc, "ev1", "Close").to_string();
+    let ev2 = s(sc, "ev2", "none").to_string();
+    let at2 = s(sc, "at2", "none").to_string();
+    let mut rng = Rng::from_env();
+    for _ in 0..(sc["id"].as_u64().unwrap_or(0) % 97 + attempt) {
+        rng.next();
+    }
+
+    let mut cfg = PairCfg::default();
+    cfg.mode = mode.to_string();
+    cfg.offerer = "A".into();
+    if let Some(c) = sc.get("cfg") {
+        cfg = PairCfg::from_json(c);
+    }
+    let media = phase == "mediaFlowing" || mode != "WebRtc";
+    if media {
+        cfg.audio = true;
+    }
+    if mode != "WebRtc" {
+        cfg.dc = false;
+    }
+    let loss = [ev1.as_str(), ev2.as_str()].iter().any(|e| matches!(*e, "SocketLoss" | "PeerSctpShutdown"));
+    let blocked = ev1 == "BlockedSender";
+    cfg.fast_timers = loss;
+    cfg.small_sctp_buffer = blocked;
+
+    let base_tasks = alive_tasks();
+    let base_socks = socket_count();
+
+    let plan = Arc::new(Plan {
+        victim: victim.clone(),
+        phase_point: phase_point(&phase).map(|x| x.to_string()),
+        ev1: ev1.clone(),
+        ev2: ev2.clone(),
+        at2: at2.clone(),
+        fired1: AtomicBool::new(false),
+        fired2: AtomicBool::new(false),
+        applicable1: AtomicBool::new(false),
+        applicable2: AtomicBool::new(false),
+        a: parking_lot::Mutex::new(None),
+        b: parking_lot::Mutex::new(None),
+        handle: tokio::runtime::Handle::current(),
+        rec: rec.clone(),
+        nprobe: AtomicU64::new(0),
+    });
+    {
+        let p = plan.clone();
+        rustrtc::verif::set_probe(Some(Arc::new(move |_comp: &str, inst: &str, point: &str| {
+            p.on_probe(inst, point);
+        })));
+    }
+
+    let drops = ev1 == "Drop" || ev2 == "Drop";
+    // the victim's event pump would hold a second handle; a dropping application has none
+    let pair = Pair::new_with(&cfg, !(drops && victim == "A"), !(drops && victim == "B"));
+    *plan.a.lock() = Some(pair.a.clone());
+    *plan.b.lock() = Some(pair.b.clone());
+    let v = pair.side(&victim).clone();
+    let mut api: Vec<Value> = vec![];
+    let mut pending: Vec<tokio::task::JoinHandle<Value>> = vec![];
+    let mut notes: Vec<String> = vec![];
+
+    // ---- drive the start-up until the phase (harness-level phases fire here)
+    let mut traffic: Vec<tokio::task::JoinHandle<()>> = vec![];
+    let stop_traffic = Arc::new(AtomicBool::new(false));
+    let drive = async {
+        if phase == "created" {
+            plan.fire1_now();
+            return;
+        }
+        if let Err(e) = pair.create_dc() {
+            notes.push(e);
+        }
+        if phase == "gathering" {
+            // gathering has been started and is awaited by a pending API call
+            let _ = pair.step_gather_offer().await;
+            if let Some(pc) = v.try_pc() {
+                let l = v.label.clone();
+                pending.push(tokio::spawn(async move {
+                    api_call(&l, "wait_for_gathering_complete", Duration::from_secs(5), pc.wait_for_gathering_complete(), |_| "ok".into()).await
+                }));
+            }
+            tokio::task::yield_now().await;
+            plan.fire1_now();
+            return;
+        }
+        let offer = match pair.step_offer().await {
+            Ok(o) => o,
+            Err(e) => {
+                notes.push(e);
+                return;
+            }
+        };
+        if let Err(e) = pair.step_set_local_offer(&offer) {
+            notes.push(e);
+            return;
+        }
+        if phase == "offerMade" {
+            plan.fire1_now();
+            return;
+        }
+        // a pending wait_for_connected on the victim from here on
+        if let Some(pc) = v.try_pc() {
+            let l = v.label.clone();
+            pending.push(tokio::spawn(async move {
+                api_call(&l, "wait_for_connected.pending", Duration::from_secs(12), pc.wait_for_connected(), okerr).await
+            }));
+        }
+        if let Err(e) = pair.step_set_remote_offer(&offer).await {
+            notes.push(e);
+            return;
+        }
+        let answer = match pair.step_answer().await {
+            Ok(a) => a,
+            Err(e) => {
+                notes.push(e);
+                return;
+            }
+        };
+        if let Err(e) = pair.step_set_local_answer(&answer) {
+            notes.push(e);
+            return;
+        }
+        if let Err(e) = pair.step_set_remote_answer(&answer).await {
+            notes.push(e);
+            return;
+        }
+        if plan.phase_point.is_some() {
+            // the event fires inside the probe; wait for it
+            wait_until(Duration::from_secs(10), || plan.fired1.load(Ordering::SeqCst)).await;
+            return;
+        }
+        // steady phases
+        if !wait_until(Duration::from_secs(10), || pair.both_connected()).await {
+            notes.push("not connected within 10 s".into());
+            return;
+        }
+        if cfg.dc && !wait_until(Duration::from_secs(10), || pair.both_dc_open()).await {
+            notes.push("channels not open within 10 s".into());
+            return;
+        }
+        if phase == "mediaFlowing" || blocked {
+            for side in [pair.a.clone(), pair.b.clone()] {
+                let stop = stop_traffic.clone();
+                let with_dc = cfg.dc && !blocked;
+                traffic.push(tokio::spawn(async move {
+                    let mut i = 0u32;
+                    while !stop.load(Ordering::SeqCst) {
+                        side.send_media(rustrtc::MediaKind::Audio, format!("m-{}-{}", side.label, i).as_bytes(), i * 960);
+                        if with_dc {
+                            if let Some(pc) = side.try_pc() {
+                                let id = side.dc.lock().as_ref().map(|d| d.id).unwrap_or(0);
+                                let _ = tokio::time::timeout(Duration::from_millis(200), pc.send_data(id, format!("d-{}-{}", side.label, i).as_bytes())).await;
+                            }
+                        }
+                        i += 1;
+                        tokio::time::sleep(Duration::from_millis(3)).await;
+                    }
+                }));
+            }
+            let ok = wait_until(Duration::from_secs(5), || {
+                !pair.a.rtp_rx.lock().is_empty() && !pair.b.rtp_rx.lock().is_empty()
+                    || (drops && (!pair.a.rtp_rx.lock().is_empty() || !pair.b.rtp_rx.lock().is_empty()))
+            })
+            .await;
+            if !ok {
+                notes.push("media not flowing within 5 s".into());
+                return;
+            }
+        }
+        if phase == "renegotiating" {
+            // the victim has made a new offer (HaveLocalOffer) when the event fires
+            if let Some(pc) = v.try_pc() {
+                match pc.create_offer().await {
+                    Ok(o) => {
+                        if let Err(e) = pc.set_local_description(o) {
+                            notes.push(format!("reneg set_local: {e}"));
+                            return;
+                        }
+                    }
+                    Err(e) => {
+                        notes.push(format!("reneg create_offer: {e}"));
+                        return;
+                    }
+                }
+            }
+        }
+        if blocked {
+            // the peer vanishes; the victim keeps sending until a send_data call blocks
+            let p = pair.side(if victim == "A" { "B" } else { "A" }).clone();
+            log("life", &victim, "fire", json!({"event": "BlockedSender", "ord": 1}));
+            plan.fired1.store(true, Ordering::SeqCst);
+            plan.applicable1.store(true, Ordering::SeqCst);
+            p.close();
+            let in_flight = Arc::new(AtomicBool::new(false));
+            let sent = Arc::new(AtomicU64::new(0));
+            if let Some(pc) = v.try_pc() {
+                let (fl, sn, l) = (in_flight.clone(), sent.clone(), v.label.clone());
+                let id = v.dc.lock().as_ref().map(|d| d.id).unwrap_or(0);
+                pending.push(tokio::spawn(async move {
+                    let buf = vec![7u8; 4096];
+                    let mut last = json!({"call": "send_data.blocked", "hang": false, "never_blocked": true});
+                    for _ in 0..4000 {
+                        fl.store(true, Ordering::SeqCst);
+                        let t0 = Instant::now();
+                        let r = tokio::time::timeout(Duration::from_secs(20), pc.send_data(id, &buf)).await;
+                        fl.store(false, Ordering::SeqCst);
+                        sn.fetch_add(1, Ordering::SeqCst);
+                        match r {
+                            Err(_) => {
+                                log("app", &l, "api_hang", json!({"call": "send_data.blocked", "bound_ms": 20000}));
+                                return json!({"call": "send_data.blocked", "hang": true});
+                            }
+                            Ok(Err(e)) => {
+                                let ms = t0.elapsed().as_millis() as u64;
+                                log("app", &l, "api_end", json!({"call": "send_data.blocked", "ms": ms, "res": "err"}));
+                                last = json!({"call": "send_data.blocked", "hang": false, "ms": ms, "res": format!("err:{e}")});
+                                return last;
+                            }
+                            Ok(Ok(())) => {}
+                        }
+                    }
+                    last
+                }));
+            }
+            // blocked = one call in flight while the counter stands still
+            let mut blocked_seen = false;
+            let mut lastc = sent.load(Ordering::SeqCst);
+            let mut still = Instant::now();
+            let t0 = Instant::now();
+            while t0.elapsed() < Duration::from_secs(8) {
+                tokio::time::sleep(Duration::from_millis(10)).await;
+                let c = sent.load(Ordering::SeqCst);
+                if c != lastc {
+                    lastc = c;
+                    still = Instant::now();
+                } else if in_flight.load(Ordering::SeqCst) && still.elapsed() > Duration::from_millis(300) {
+                    blocked_seen = true;
+                    break;
+                }
+            }
+            log("life", &victim, "blocked", json!({"blocked": blocked_seen, "sent": lastc}));
+            if !blocked_seen {
+                notes.push("sender never blocked".into());
+            }
+            // the application now closes while the sender is blocked
+            log("app", &victim, "api_begin", json!({"call": "send_data.blocked"}));
+            let second = if ev2 == "none" { "Close".to_string() } else { ev2.clone() };
+            plan.fired2.store(true, Ordering::SeqCst);
+            let ok = plan.fire(&second, 2);
+            plan.applicable2.store(ok, Ordering::SeqCst);
+            return;
+        }
+        plan.fire1_now();
+    };
+    drive.await;
+
+    let fired1 = plan.fired1.load(Ordering::SeqCst);
+    let app1 = plan.applicable1.load(Ordering::SeqCst);
+    // ev2 with at2 == "delay": a little later from another thread
+    if fired1 && ev2 != "none" && !blocked && (at2 == "delay" || at2 == "none") && !plan.fired2.swap(true, Ordering::SeqCst) {
+        tokio::time::sleep(Duration::from_micros(200 + rng.below(3000))).await;
+        let ok = plan.fire(&ev2, 2);
+        plan.applicable2.store(ok, Ordering::SeqCst);
+    }
+
+    // ---- let the stack settle, then observe
+    let local = |e: &str| matches!(e, "Close" | "Drop");
+    let any_local = local(&ev1) || local(&ev2) || blocked;
+    let term_bound = if loss { Duration::from_secs(12) } else if any_local { Duration::from_secs(3) } else { Duration::from_secs(6) };
+    let t_wait = Instant::now();
+    let reached = if fired1 && app1 {
+        wait_until(term_bound, || is_terminal(&v)).await
+    } else {
+        false
+    };
+    // when ev2 is to fire at a probe point of a loop, give that loop the chance to get there
+    if fired1 && ev2 != "none" && !plan.fired2.load(Ordering::SeqCst) {
+        wait_until(Duration::from_secs(3), || plan.fired2.load(Ordering::SeqCst)).await;
+    }
+    quiesce(Duration::from_millis(150), Duration::from_secs(3)).await;
+    let term_ms = t_wait.elapsed().as_millis() as u64;
+    stop_traffic.store(true, Ordering::SeqCst);
+    for t in traffic.drain(..) {
+        let _ = t.await;
+    }
+    let obs_peer = format!("{:?}", v.peer_state().unwrap());
+    let obs_reason = v.reason().to_string();
+    let obs_sig = v.sig_state();
+    log("life", &victim, "observe", json!({"peer": obs_peer, "reason": obs_reason, "sig": obs_sig, "terminal": reached}));
+
+    // ---- subsequent API calls must return promptly
+    let bound = Duration::from_secs(4);
+    if let Some(pc) = v.try_pc() {
+        let l = v.label.clone();
+        if reached {
+            api.push(api_call(&l, "wait_for_connected", bound, pc.wait_for_connected(), okerr).await);
+            api.push(api_call(&l, "create_offer", bound, pc.create_offer(), okerr).await);
+            let id = v.dc.lock().as_ref().map(|d| d.id).unwrap_or(0);
+            api.push(api_call(&l, "send_data", bound, pc.send_data(id, b"after"), okerr).await);
+            api.push(api_call(&l, "wait_for_gathering_complete", bound, pc.wait_for_gathering_complete(), |_| "ok".into()).await);
+        }
+        drop(pc);
+    }
+    for p in pending.drain(..) {
+        match tokio::time::timeout(Duration::from_secs(25), p).await {
+            Ok(Ok(vj)) => api.push(vj),
+            Ok(Err(e)) => api.push(json!({"call": "pending", "panic": e.to_string()})),
+            Err(_) => api.push(json!({"call": "pending", "hang": true})),
+        }
+    }
+    quiesce(Duration::from_millis(100), Duration::from_secs(2)).await;
+    let tasks_settled = alive_tasks();
+
+    // ---- the application closes (again) and drops everything; resources must come back
+    let peer_before2 = format!("{:?}", v.peer_state().unwrap());
+    let closed_again = v.close();
+    quiesce(Duration::from_millis(100), Duration::from_secs(2)).await;
+    let peer_after2 = format!("{:?}", v.peer_state().unwrap());
+    let reason_after2 = v.reason().to_string();
+    log("life", &victim, "second_close", json!({"called": closed_again, "before": peer_before2, "peer": peer_after2, "reason": reason_after2}));
+    let dc_was_open = v.dc_open.load(Ordering::SeqCst);
+    let other = pair.side(if victim == "A" { "B" } else { "A" }).clone();
+    other.close();
+    quiesce(Duration::from_millis(100), Duration::from_secs(2)).await;
+    let dc_closes = v.dc_closes.load(Ordering::SeqCst);
+    let other_open = other.dc_open.load(Ordering::SeqCst);
+    let other_closes = other.dc_closes.load(Ordering::SeqCst);
+    rustrtc::verif::set_probe(None);
+    *plan.a.lock() = None;
+    *plan.b.lock() = None;
+    pair.a.release_aux();
+    pair.b.release_aux();
+    pair.a.drop_pc();
+    pair.b.drop_pc();
+    let final_peer = format!("{:?}", v.peer_state().unwrap());
+    let final_reason = v.reason().to_string();
+    let final_sig = v.sig_state();
+    drop(v);
+    drop(other);
+    drop(pair);
+    let t_rel = Instant::now();
+    let released = wait_until(Duration::from_secs(10), || alive_tasks() <= base_tasks && socket_count() <= base_socks).await;
+    let rel_ms = t_rel.elapsed().as_millis() as u64;
+    let end_tasks = alive_tasks();
+    let end_socks = socket_count();
+    let leak_detail = if released { vec![] } else { socket_details() };
+    rec.drain();
+    let hit = fired1 && app1 && (ev2 == "none" || blocked || (plan.fired2.load(Ordering::SeqCst) && plan.applicable2.load(Ordering::SeqCst)));
+    json!({
+        "comp": "life", "ev": "end", "inst": victim, "id": sc["id"], "hit": hit,
+        "fired1": fired1, "applicable1": app1,
+        "fired2": plan.fired2.load(Ordering::SeqCst), "applicable2": plan.applicable2.load(Ordering::SeqCst),
+        "terminal": reached, "term_ms": term_ms,
+        "peer": obs_peer, "reason": obs_reason, "sig": obs_sig,
+        "peer2": peer_after2, "reason2": reason_after2,
+        "final_peer": final_peer, "final_reason": final_reason, "final_sig": final_sig,
+        "dc_was_open": dc_was_open, "dc_closes": dc_closes,
+        "other_dc_was_open": other_open, "other_dc_closes": other_closes,
+        "api": api, "api_hangs": api.iter().filter(|a| a["hang"] == true).count(),
+        "base_tasks": base_tasks, "base_socks": base_socks, "tasks_settled": tasks_settled,
+        "end_tasks": end_tasks, "end_socks": end_socks, "released": released, "leak_detail": leak_detail, "rel_ms": rel_ms,
+        "notes": notes, "probes": plan.nprobe.load(Ordering::Relaxed),
+    })
+}
+
+async fn run_c10(_sc: &Value, _rec: Arc<Recorder>) -> Value {
+    json!({"comp":"life","ev":"end","hit":false,"todo":true})
 }
